@@ -85,6 +85,8 @@ func checkC04(c *Ctx) {
 
 	c.Rule("C04/R6", "caches on the tidy / unit-match path are keyed by every input of the cached value (tidy cache: the unit string itself; no memo of a unit match may be keyed by one of the two units only)")
 	c.Rule("C04/R7", "in the rewrite loop a denominator token is skipped without leaving the loop and without editing")
+	c.Rule("C04/R9", "recorded edits stay aligned: the loop that splices replacements into the unit at positions recorded against the original string runs from the last edit to the first, or corrects each position by the accumulated change in length")
+	c.Rule("C04/R8", "units are split into words by characters, not bytes: no unicode predicate in benchunit is applied to a lone byte widened to a rune (unless the byte was tested to be ASCII)")
 	p := mustLoad(c, loadOpts{}, "./benchfmt", "./benchunit", "./benchproc")
 	c04R1(c, p, "C04/R1")
 	c04R2(c, p)
@@ -92,7 +94,40 @@ func checkC04(c *Ctx) {
 	c04R4(c, p)
 	c04R5(c, p)
 	c04R6(c, p)
-
+	byteRuneRule(c, p, "C04/R8", "benchunit")
+	// R9: edits recorded against the original unit are applied back to front, or with an accumulated shift
+	nSp := 0
+	for _, fn := range p.Funcs("benchunit") {
+		for _, sl := range spliceLoops(fn) {
+			nSp++
+			key := fmt.Sprintf("%s:splice#%d", fnName(fn), nSp)
+			switch sl.Verdict {
+			case "backwards":
+				c.OK("C04/R9", key, p.pos(sl.Pos), "pieces are replaced from the last to the first, so recorded positions stay valid")
+			case "shifted":
+				c.OK("C04/R9", key, p.pos(sl.Pos), "positions are corrected by the accumulated change in length")
+			case "unshifted":
+				c.Bad("C04/R9", key, p.pos(sl.Pos), "pieces are replaced front to back at positions recorded against the original unit, without adding up how much the earlier replacements changed its length: from the third rewritten word on the cut lands in the wrong place (MB*MB*MB/s becomes B*B*MBs) while the value is still scaled for the base unit")
+			default:
+				c.Undecided("C04/R9", key, p.pos(sl.Pos), "cannot tell in which order the recorded edits are applied")
+			}
+		}
+	}
+	c.OK("C04/R9", "splice:loops", "", fmt.Sprintf("%d loops rewrite the unit in place at recorded positions (none: the pieces are copied from the original string, whose positions never move)", nSp))
+	ctl := mustLoad(c, loadOpts{dir: c.HomeDir + "/checker"}, "./testdata/lookbehind")
+	nCtl := 0
+	for _, fn := range ctl.Funcs("perfcheck/testdata/lookbehind") {
+		for _, sl := range spliceLoops(fn) {
+			if sl.Verdict == "unshifted" {
+				nCtl++
+			}
+		}
+	}
+	if nCtl == 0 {
+		c.Undecided("C04/R9", "positive-control", "", "the splice-order matcher no longer recognises its own positive example")
+	} else {
+		c.OK("C04/R9", "positive-control", "checker/testdata/lookbehind/lb.go", "matcher fires on the stored front-to-back splice")
+	}
 }
 
 const tidyPkg = modPath + "/benchunit"
@@ -488,10 +523,6 @@ func c04R2(c *Ctx, p *Prog) {
 						}
 					} else if isSel {
 						// general rewrite: one composite literal carrying the replacement string, one op-assign on a float with a constant.
-						if len(ks) != 1 {
-							c.Undecided(R, "general:"+strings.Join(ks, ","), p.pos(cc.Pos()), "rewrite case with several keys")
-							continue
-						}
 						var repl *string
 						var fac *big.Rat
 						var lenLit *string
@@ -542,10 +573,13 @@ func c04R2(c *Ctx, p *Prog) {
 							c.Undecided(R, "general:"+ks[0], p.pos(cc.Pos()), "cannot read replacement and factor from this rewrite case")
 							continue
 						}
-						if lenLit != nil && len(*lenLit) != len(ks[0]) {
-							c.Bad(R, "general:"+ks[0]+":len", p.pos(cc.Pos()), fmt.Sprintf("edit length is len(%q) but the token is %q", *lenLit, ks[0]))
+						// a case may list several tokens that share one rewrite
+						for _, k := range ks {
+							if lenLit != nil && len(*lenLit) != len(k) {
+								c.Bad(R, "general:"+k+":len", p.pos(cc.Pos()), fmt.Sprintf("edit length is len(%q) but the token is %q", *lenLit, k))
+							}
+							general[k] = tidyRow{*repl, fac}
 						}
-						general[ks[0]] = tidyRow{*repl, fac}
 						generalPos = x.Pos()
 					}
 				}
